@@ -280,7 +280,18 @@ Upd_GrowthStage(t, s, e) == [s EXCEPT !.ws = WsOf(s, e), !.d = [s.d EXCEPT !.sta
 Upd_Canopy(t, s, e) == [s EXCEPT !.ws = WsOf(s, e), !.d = [s.d EXCEPT !.dead = e.dead]]
 
 \* ---- Evaporate / Transpire / GwInflow
+\* evaporation layer: potential rate bounded by the maximum evaporation coefficient, layer depth within its configured limits,
+\* only compartments that reach into the deepest possible evaporation layer lose water, ponded water evaporates first
+EvapLayerC(t, s, e) ==
+  LET c == Cfg(t) post == WsOf(s, e) IN
+  [ potCap   |-> LeTol(e.espot, Mul(e.kex, e.et0), Tol9),
+    todaysET |-> Eq(e.et0, s.d.ET0),
+    depth    |-> LeTol(e.zmin, e.evapZ, Tol9) /\ LeTol(e.evapZ, Add(e.zmax, Milli(2)), Tol9),
+    topOnly  |-> \A i \in 1..c.N : Ge(Sub(c.zbot[i], c.thick[i]), Add(e.zmax, Milli(2))) => post.W[i] = s.ws.W[i],
+    pondAll  |-> Ge(s.ws.pond, e.espot) /\ IsPos(e.espot) => (Near(e.es, e.espot, Tol9) /\ post.W = s.ws.W),
+    needsPot |-> IsPos(e.es) => IsPos(e.espot) ]
 Chk_Evaporate(t, s, e) == Tag("Evaporate", EvapC(K(t), s.ws, WsOf(s, e), [es |-> e.es, espot |-> e.espot]))
+                          \cup Tag("Evaporate.layer", EvapLayerC(t, s, e))
 TrArgs(t, s, e) == [tr |-> e.tr, trpot |-> e.trpot, irrnet |-> e.irrnet, gs |-> e.gs, net |-> e.method = 4]
 Chk_Transpire(t, s, e) == Tag("Transpire", TranspC(K(t), s.ws, WsOf(s, e), TrArgs(t, s, e)))
 Upd_Transpire(t, s, e) == [s EXCEPT !.ws = WsOf(s, e), !.d = [s.d EXCEPT !.tr = e.tr]]
